@@ -597,7 +597,7 @@ fn peak_of(events: &[Ev]) -> u64 {
 }
 
 /// C11, sharper than the constant bound: the peak heap of the same operation on a short input
-/// (three chunks) with the same schedule; the run's peak must not exceed it by more than a slack.
+/// (three full chunks, same write schedule); the run's peak must not exceed it by more than a slack.
 fn heap_reference_enc(ctx: &Ctx, scn: &Value) -> Option<u64> {
     if !scn.get("heapref").and_then(|x| x.as_bool()).unwrap_or(false) {
         return None;
@@ -606,6 +606,10 @@ fn heap_reference_enc(ctx: &Ctx, scn: &Value) -> Option<u64> {
     let mut s = scn.clone();
     s["plen"] = json!(std::cmp::min(ju64(scn, "plen"), 3 * cs + 1));
     s["store"] = json!(false);
+    // full reads: the peak depends on the chunk LENGTH (the sealed copy of a chunk is as long as the chunk), so the
+    // reference must see chunks of the maximal length, whatever read sizes the run under test uses
+    s["rs"] = json!([]);
+    s["rgen"] = json!(0);
     Some(peak_of(&enc_once(ctx, &s).events))
 }
 
